@@ -211,12 +211,24 @@ def ec_private_key(d_bytes, curve_oid=None, point_bytes=None):
     return enc_seq(*parts)
 
 
-def pkcs8(d_bytes, curve_oid, point_bytes=None, version=0, inner_params=False):
+def pkcs8(d_bytes, curve_oid, point_bytes=None, version=0, inner_params=False,
+          attributes=False, outer_public=None):
+    """OneAsymmetricKey (RFC 5958): optional attributes [0] IMPLICIT SET and,
+    in version 2 (value 1), publicKey [1] IMPLICIT BIT STRING (primitive tag
+    0x81) after the privateKey octet string"""
     inner = ec_private_key(d_bytes, curve_oid if inner_params else None,
                            point_bytes)
-    return enc_seq(enc_int(version),
-                   enc_seq(enc_oid(OID_EC_PUBKEY), enc_oid(curve_oid)),
-                   enc_octets(inner))
+    parts = [enc_int(version),
+             enc_seq(enc_oid(OID_EC_PUBKEY), enc_oid(curve_oid)),
+             enc_octets(inner)]
+    if attributes:
+        # one attribute: friendlyName-like OID with a SET of one UTF8String
+        attr = enc_seq(enc_oid((1, 2, 840, 113549, 1, 9, 20)),
+                       tlv(0x31, tlv(0x0c, b"key")))
+        parts.append(tlv(0xa0, attr))
+    if outer_public is not None:
+        parts.append(tlv(0x81, b"\x00" + outer_public))
+    return enc_seq(*parts)
 
 
 def sig_value(r, s):
